@@ -3,3 +3,6 @@ import TpmVerif.Model.Clock
 import TpmVerif.Check.C16
 import TpmVerif.Model.Tpm12Frame
 import TpmVerif.Check.C18
+import TpmVerif.Model.Sha1
+import TpmVerif.Model.Tpm12Core
+import TpmVerif.Check.C20
